@@ -110,6 +110,9 @@ def h_string(vlq, W, ends):
     return harness
 
 
+K_NO_LINES = 'mappings: the structure with no line at all ([]) encodes to the empty text, which decodes to one empty line ([[]])'
+
+
 def h_mappings(vlq, W, shape, bits, wide):
     """shape: tuple of lines, each a tuple of arities; the wide-th integer ranges over |x| < 2^bits,
     the others over 0 <= x < 8 (single-digit encodings) - keeps the path product small"""
@@ -252,16 +255,17 @@ def main():
         for pat in itertools.product((0, 1), repeat=L - 1):
             tasks.append(('string', (40, tuple(pat) + (1,))))
     ar = (1, 4, 5)
-    shapes = [((1,),), ((4,), (1,)), ((), (5, 4)), ((5,), (), (4,))]
+    shapes = [((1,),), ((4,), (1,)), ((), (5, 4)), ((5,), (), (4,)), (), ((),)]      # incl. no line at all and one empty line
     if th:
         shapes = []
         for nl in (1, 2):
             for lines in itertools.product(*[[()] + [(a,) for a in ar] + [(a, b) for a in ar for b in ar]] * nl):
                 shapes.append(tuple(lines))
         shapes.append(((5,), (), (4,)))
+        shapes.append(())
     for sh in shapes:
         n = sum(len(l) and sum(l) for l in sh)
-        for wide in (range(n) if th else sorted({0, n - 1})):
+        for wide in (range(max(n, 1)) if th else sorted({0, max(n - 1, 0)})):
             tasks.append(('mappings', (WL, sh, 14, wide)))
     results = common.pmap(_run_task, tasks)
     tot = dict(paths=0, reached=0, z3_checks=0, assertions=0, solver_s=0.0)
@@ -283,6 +287,8 @@ def main():
         seen = set()
         for msg, w in viols:
             key = '%s: %s' % (kind, msg)
+            if kind == 'mappings' and w.get('mappings') == []:
+                key = K_NO_LINES
             if key in seen:
                 continue
             seen.add(key)
